@@ -2323,6 +2323,10 @@ def chain_child(scope):
     # of tuples
     nxt_in_chain = scope[LAST_CHILD_SCOPE]
     nxt_in_chain.maps[0][NO_PYFRAME] = True
+    # a mode set by the previous step (e.g. Fill(...), Match(...)) ends
+    # with that step: the rest of the chain runs in the chain's own mode
+    nxt_in_chain.maps[0][MODE] = scope.maps[0][MODE]
+    nxt_in_chain.maps[0][MIN_MODE] = scope.maps[0][MIN_MODE]
     # previous failed branches are forgiven as the
     # scope is re-wired into a new stack
     del nxt_in_chain.maps[0][CHILD_ERRORS][:]
